@@ -25,7 +25,10 @@ namespace BitSerializer::Detail
 			size_t loadedItems = 0;
 			for (auto it = cont.begin(); it != cont.end() && !arrayScope.IsEnd(); ++it, ++loadedItems)
 			{
-				Serialize(arrayScope, *it);
+				// An existing item that was not loaded (e.g. null) must not keep its previous content
+				if (!Serialize(arrayScope, *it)) {
+					*it = typename TContainer::value_type();
+				}
 			}
 			// Load all left items
 			for (; !arrayScope.IsEnd(); ++loadedItems)
